@@ -20,7 +20,7 @@ RULE = (
     "Part A (enumeration): every zone of pytz.all_timezones x every UTC-offset change 2000-01-01..2037-12-31 from the zone's "
     "transition table. For each (zone, transition) the three local days around the change are built as the hourly data class "
     "builds them; step: the clock-normalisation functions are driven with a slot-identifier vector and must return one slot per "
-    "real hour in order (all pairs, both tiers); predict: a fitted HourlyModel whose stored document carries that zone predicts "
+    "real hour in order (all pairs, both tiers; the transition day in the middle of a three-day span, as the first day, as the last day and alone); predict: a fitted HourlyModel whose stored document carries that zone predicts "
     "the span through the public API (quick: one pair per (zone, signature); thorough: all pairs) - rows must equal the data "
     "object's rows = the real hours of those local days (UTC arithmetic), predictions finite, and the rows of the day before and "
     "the day after must equal the prediction of that day alone (no slot shifted). Part B (generated): hourly / daily / billing "
@@ -93,8 +93,9 @@ def judge_step(p, rec):
         rec.case(p, False, ["sub=step", "unreachable"])
         return
     sig = signature(p)
-    idx = span_index(p)
-    cls = ["sub=step", "sig=" + sig]
+    place = p.get("place", [1, 1])
+    idx = span_index(p, place[0], place[1])
+    cls = ["sub=step", "sig=" + sig, "place=%d+%d" % tuple(place)]
     if (idx.minute != 0).any():
         cls.append("off-hour-after-shift")
     df = pd.DataFrame({"observed": 1.0, "temperature": 1.0}, index=idx)
@@ -162,8 +163,9 @@ def judge_pair_predict(p, rec):
     from opendsm import eemeter as em
 
     sig = signature(p)
-    idx = span_index(p)
-    cls = ["sub=predict", "sig=" + sig]
+    place = p.get("place", [1, 1])
+    idx = span_index(p, place[0], place[1])
+    cls = ["sub=predict", "sig=" + sig, "place=%d+%d" % tuple(place)]
     key = "predict/" + sig
     whole_hour = p["shift"] % 3600 == 0
     if not whole_hour:
@@ -352,8 +354,9 @@ def shards(tier, seed):
     q = tier == "quick"
     pairs = all_pairs()
     out = []
+    PL = [[1, 1], [0, 1], [1, 0], [0, 0]]
     for i in range(4):
-        out.append({"sub": "list", "mode": "pair-step", "lo": i, "step": 4})
+        out.append({"sub": "list", "mode": "pair-step", "lo": i, "step": 4, "places": PL})
     if q:
         seen, pick = set(), []
         order = sorted(range(len(pairs)), key=lambda j: mix(seed, pairs[j]["zone"], pairs[j]["utc"]))
@@ -367,7 +370,7 @@ def shards(tier, seed):
         sel = list(range(len(pairs)))
     k = 6
     for i in range(k):
-        out.append({"sub": "list", "mode": "pair-predict", "sel": sel[i::k]})
+        out.append({"sub": "list", "mode": "pair-predict", "sel": sel[i::k], "places": PL})
     for fam, n in (("hourly", 3), ("daily", 2), ("billing", 1)):
         for i in range(n):
             out.append({"sub": "span", "family": fam, "n": (30 if fam == "hourly" else 120) if q else (300 if fam == "hourly" else 1500),
@@ -382,8 +385,10 @@ def run_shard(spec, rec):
             todo = pairs[spec["lo"]::spec["step"]]
         else:
             todo = [pairs[j] for j in spec["sel"]]
-        for p in todo:
-            run_judge(judge, dict(p, mode=spec["mode"]), rec)
+        # the transition day in the middle of the span, as its first day, as its last day, and alone
+        for place in spec.get("places", [[1, 1]]):
+            for p in todo:
+                run_judge(judge, dict(p, mode=spec["mode"], place=place), rec)
         return
     explore(span_cases(family=spec["family"]), judge, rec, max_examples=spec["n"], seed=spec["seed"], shrink=spec["family"] != "hourly")
 
